@@ -157,55 +157,101 @@ fn revoke_reactor_continues_past_dead_entity()
 pub struct OnceLog(pub u8);
 impl bevy::ecs::system::Resource for OnceLog {}
 
-/// C15: the wrapper built by `ReactCommands::once` runs the user's reactor on its first invocation only, despawns its
-/// own entity and revokes its own token (no registration of it remains); a second invocation (another of its
-/// triggers firing in the same tree) does nothing.
+/// recorder standing in for `ReactCommands::revoke` inside the once-wrapper (what a revoke does with a token is decided
+/// by the C06 obligations; what the token names by token.every_member)
+pub static mut REVOKES: usize = 0x5EED_0B00;
+pub static mut REVOKED_ID: (u32, u32) = (0x5EED, 0);
+pub static mut REVOKED_TRIGGERS: usize = 0x5EED_0C00;
+pub fn revokes() -> usize { unsafe { REVOKES - 0x5EED_0B00 } }
+pub fn record_revoke<'w, 's>(_rc: &mut ReactCommands<'w, 's>, token: RevokeToken) where 'w: 'w, 's: 's
+{
+    unsafe { REVOKES += 1; REVOKED_ID = (token.id.index(), token.id.generation()); REVOKED_TRIGGERS = 0x5EED_0C00 + token.reactors.len(); }
+    std::mem::forget(token);
+}
+
+/// C15: the wrapper built by `ReactCommands::once` runs the user's reactor on its first invocation only, then despawns its
+/// own entity and revokes its own token (all of the bundle's triggers); any later invocation (another of its triggers
+/// firing in the same tree, or the reactor triggering itself) does nothing at all.
 #[kani::proof]
 #[kani::stub(core::any::TypeId::of, crate::vh::stub_typeid_of)]
 #[kani::stub(<core::any::TypeId as crate::vh::PEq>::eq, crate::vh::stub_typeid_eq)]
+#[kani::stub(ReactCommands::revoke, record_revoke)]
 #[kani::unwind(4)]
 fn once_reactor_runs_once_then_vanishes()
 {
     let mut world = World::new();
-    world.m_apply_via_fn_pointer();
     world.m_drop_table::<bevy::model::cell::LeakAll>();      // what the despawn drops is not the subject here
     world.insert_resource(ReactCache::default());
     world.insert_resource(crate::ecs::auto_despawn::verif_h::mk_despawner());
     world.insert_resource(OnceLog(0));
+    let neighbour = world.spawn_empty().id();
     let mut captured: Vec<bevy::world::InsertCommand<SystemCommandStorage>> = Vec::with_capacity(2);
     world.m_capture(&mut captured);
     let wp = &mut world as *mut World;
     let token =
     {
         let mut rc = ReactCommands{ commands: cmds(wp) };
-        rc.once(broadcast::<Ea>(), |mut log: bevy::ecs::system::ResMut<OnceLog>| { log.0 += 1; })
+        rc.once((broadcast::<Ea>(), broadcast::<Eb>()), |mut log: bevy::ecs::system::ResMut<OnceLog>| { log.0 += 1; })
     };
     world.m_capture_end();
     assert!(captured.len() == 1 && world.m_queued() == 2, "C15: once() queues the registration and the storage of the wrapper");
     let reactor_entity = captured[0].entity;
-    assert!(token.id == SystemCommand(reactor_entity), "C15: the token names the wrapper's own entity");
-    // the registration command is set aside (not applied); the table is written as registration would have left it
-    let _registration = world.m_pop_command();
+    assert!(token.id == SystemCommand(reactor_entity) && token.reactors.len() == 2, "C15: the token names the wrapper's own entity and every trigger of the bundle");
+    let _registration = world.m_pop_command();      // the registration command is set aside (decided by the registration obligations)
     world.flush_entities();
-    {
-        let mut cache = world.resource_mut::<ReactCache>();
-        crate::react::react_cache::verif_h::put_broadcast::<Ea>(&mut cache, ReactorHandle::Persistent(SystemCommand(reactor_entity)), ReactorHandle::Persistent(SystemCommand(ent(42))));
-    }
     let mut storage = captured.pop().unwrap().bundle;
     let mut callback = storage.take().unwrap();
+    let extra_runs = crate::vh::any_below(3);      // how many more of its triggers fire afterwards
 
     callback.run(&mut world, SystemCommandCleanup::default());
     assert!(world.resource::<OnceLog>().0 == 1, "C15: the reactor ran on the first trigger");
-    assert!(!world.m_alive(reactor_entity), "C15: afterwards its entity is gone");
-    assert!(crate::react::react_cache::verif_h::broadcast_entries::<Ea>(world.resource::<ReactCache>()) == 1
-        && crate::react::react_cache::verif_h::broadcast_first::<Ea>(world.resource::<ReactCache>()) == Some(SystemCommand(ent(42))),
-        "C15: none of its triggers remains registered; other reactors keep theirs");
-
-    callback.run(&mut world, SystemCommandCleanup::default());
-    assert!(world.resource::<OnceLog>().0 == 1, "C15: a second trigger in the same tree does not run it again");
-    kani::cover!(true, "end of harness reached");
-    std::mem::forget(callback); std::mem::forget(world);
+    assert!(!world.m_alive(reactor_entity) && world.m_alive(neighbour), "C15: afterwards its entity is gone (and nothing else)");
+    assert!(revokes() == 1 && unsafe { REVOKED_ID } == (reactor_entity.index(), reactor_entity.generation()) && unsafe { REVOKED_TRIGGERS } == 0x5EED_0C00 + 2,
+        "C15: it revokes exactly its own token, naming all of its triggers");
+    if extra_runs >= 1 { callback.run(&mut world, SystemCommandCleanup::default()); }
+    if extra_runs >= 2 { callback.run(&mut world, SystemCommandCleanup::default()); }
+    assert!(world.resource::<OnceLog>().0 == 1 && revokes() == 1, "C15: further triggers do not run it again and revoke nothing more");
+    kani::cover!(extra_runs == 2, "two further invocations"); kani::cover!(extra_runs == 0, "no further invocation");
+    std::mem::forget(callback); std::mem::forget(world); std::mem::forget(token);
 }
 
 /// helper for harnesses of sibling modules (`ReactorMode::prepare` is private to this module)
 pub fn cleanup_handle(despawner: &AutoDespawner, sys: SystemCommand) -> ReactorHandle { ReactorMode::Cleanup.prepare(despawner, sys) }
+
+/// C15 / C07: `register_reactors` (the deferred registration every `on*`/`once`/`with` ends in): an EMPTY trigger bundle in a
+/// ref-counted mode registers nothing and hands the reactor to the collector at once (it is dropped without ever running);
+/// a two-trigger bundle queues exactly one registration per trigger and the reactor is NOT released while those
+/// registrations are in flight.
+fn register_reactors_kernel(empty: bool)
+{
+    let mut world = World::new();
+    world.m_drop_table::<bevy::model::cell::LeakAll>();
+    let despawner = crate::ecs::auto_despawn::verif_h::mk_despawner();
+    let sys = SystemCommand(ent(any_below(50) as u32));
+    let mode = if kani::any() { ReactorMode::Revokable } else { ReactorMode::Cleanup };
+    let wp = &mut world as *mut World;
+    if empty { register_reactors(In(((), sys, mode)), cmds(wp), Res::m_new(&despawner)); }
+    else { register_reactors(In(((broadcast::<Ea>(), broadcast::<Eb>()), sys, mode)), cmds(wp), Res::m_new(&despawner)); }
+    if empty
+    {
+        assert!(world.m_queued() == 0, "C15: an empty bundle registers nothing");
+        assert!(despawner.try_recv() == Some(*sys) && despawner.try_recv().is_none(), "C15/C07: a reactor registered with no trigger is handed to the collector at once, exactly once");
+    }
+    else
+    {
+        assert!(world.m_queued() == 2, "C01/C15: one deferred registration per trigger of the bundle");
+        assert!(despawner.try_recv().is_none(), "C07: the reactor is not released while its registrations are in flight");
+    }
+    kani::cover!(true, "end of harness reached");
+    std::mem::forget(world);
+}
+#[kani::proof]
+#[kani::stub(core::any::TypeId::of, crate::vh::stub_typeid_of)]
+#[kani::stub(<core::any::TypeId as crate::vh::PEq>::eq, crate::vh::stub_typeid_eq)]
+#[kani::unwind(4)]
+fn register_reactors_empty_bundle() { register_reactors_kernel(true) }
+#[kani::proof]
+#[kani::stub(core::any::TypeId::of, crate::vh::stub_typeid_of)]
+#[kani::stub(<core::any::TypeId as crate::vh::PEq>::eq, crate::vh::stub_typeid_eq)]
+#[kani::unwind(4)]
+fn register_reactors_two_triggers() { register_reactors_kernel(false) }
